@@ -78,6 +78,11 @@ def gen_coq(ctx, W):
     for i, (s, c) in enumerate(lag_chunks):
         shards.append(shard_file(ctx, f"C12_LagS{i}", f"lag_shard_{i}",
                                  f"rect_ok lag_kernel (Z.to_nat {c}) (Z.to_nat 1572) {s} 0"))
+    KB = 120 if W < NDAYS - 1 else 600
+    addm_chunks = split(0, 1572, 8)
+    for i, (s, c) in enumerate(addm_chunks):
+        shards.append(shard_file(ctx, f"C12_AddmS{i}", f"addm_shard_{i}",
+                                 f"rect_ok (addm_kernel {KB}) (Z.to_nat {c}) (Z.to_nat {2 * KB + 1}) {s} 0"))
     shards.append(shard_file(ctx, "C12_IdS", "id_shard", "loop (Z.to_nat 1572) (of_Z 0) id_kernel"))
     shards.append(shard_file(ctx, "C12_OrdS", "ord_shard", "loop NDAYS (of_Z LO) ord_ok"))
     shards.append(shard_file(ctx, "C12_BrS", "bracket_shard", "loop NDAYS (of_Z LO) bracket_kernel"))
@@ -86,7 +91,11 @@ def gen_coq(ctx, W):
         "rect_ok pre_kernel (Z.to_nat 840) (Z.to_nat 1201) (-840) 0"))
 
     imp = "From Gen Require Import " + " ".join(p.stem for p in shards) + ".\n"
-    L = [HEADER, imp, f"Definition W : Z := {W}.\n"]
+    L = [HEADER, imp, f"Definition W : Z := {W}.\nDefinition KB : Z := {KB}.\n"]
+    L.append("Lemma addm_all : forall id j, 0 <= id <= 1571 -> 0 <= j <= 2 * KB ->\n"
+             "  addm_kernel KB (of_Z id) (of_Z j) = true.\nProof.\n  unfold KB. intros id j Hi Hj.")
+    L.append(chain("id", 0, addm_chunks, "apply (rect_ok_spec _ _ _ _ _ addm_shard_{i}); lia"))
+    L.append("Qed.\n")
     # inverse law
     L.append("Lemma inv_all : forall p e, LO <= p <= HI -> LO <= e <= HI -> - W <= e - p <= W ->\n"
              "  inv_ok (of_Z p) (of_Z e) = true.\nProof.\n  unfold LO, HI, W. intros p e Hp He Hw.")
